@@ -46,6 +46,10 @@ struct Case {
     serve0: Option<Serve>,
     /// Served to the run that is killed.
     serve1: Serve,
+    /// CAs that hold a valid stored version before the killed run: without
+    /// collector they must contribute one of their versions, never nothing.
+    #[serde(default)]
+    must_have: Vec<String>,
     /// `None`: the reference run only; otherwise the kill to inject.
     kill: Option<Kill>,
 }
@@ -639,14 +643,14 @@ fn ca_payloads(world: &World) -> Vec<(String, Vec<BTreeSet<String>>)> {
 
 /// Every CA contributes the payload of one of its versions, or (if its
 /// stored data is expired or it is unreachable) nothing.
-fn old_or_new(world: &World, served: &[String]) -> Result<(), String> {
+fn old_or_new(world: &World, must_have: &[String], served: &[String]) -> Result<(), String> {
     let served: BTreeSet<String> = served.iter().cloned().collect();
     let mut explained = BTreeSet::new();
     for (name, versions) in ca_payloads(world) {
         let universe: BTreeSet<String> = versions.iter().flatten().cloned().collect();
         let mine: BTreeSet<String> = served.intersection(&universe).cloned().collect();
         explained.extend(mine.iter().cloned());
-        if mine.is_empty() && name != "root" && name != "a" && name != "b" { continue }
+        if mine.is_empty() && !must_have.contains(&name) { continue }
         if !versions.iter().any(|v| *v == mine) {
             return Err(format!("{name} contributes {mine:?}, which is none of its versions {versions:?}"))
         }
@@ -775,7 +779,7 @@ fn run_input(ctx: &mut Ctx, prepared: &mut Option<Prepared>, input: &Value) {
             }
             else { ctx.count("followup:normal-run-same-payload") }
         }
-        else if let Err(why) = old_or_new(&case.world, &payload) {
+        else if let Err(why) = old_or_new(&case.world, &case.must_have, &payload) {
             ctx.oracle_fail(
                 &format!("not-old-or-new:{slug}"),
                 &format!(
@@ -804,8 +808,10 @@ fn run_input(ctx: &mut Ctx, prepared: &mut Option<Prepared>, input: &Value) {
 
 fn generate(ctx: &mut Ctx, prepared: &mut Option<Prepared>) -> Vec<Value> {
     let world = world();
+    let abc = vec!["root".to_string(), "a".to_string(), "b".to_string()];
     let base = Case {
-        world, serve0: Some(serve(0, 0, true)), serve1: serve(1, 1, false), kill: None,
+        world: world.clone(), serve0: Some(serve(0, 0, true)), serve1: serve(1, 1, false),
+        must_have: abc.clone(), kill: None,
     };
     let mut cases = vec![to_json(&base)];
     // Kill points are enumerated from the trace of the current code.
@@ -831,6 +837,31 @@ fn generate(ctx: &mut Ctx, prepared: &mut Option<Prepared>) -> Vec<Value> {
                     case.kill = Some(Kill { follow, syscall: syscall.into(), when });
                     cases.push(to_json(&case));
                 }
+            }
+        }
+        // Two more scenarios: the very first run on an empty cache directory
+        // (every point file is created), and a run in which nothing changed.
+        let others = [
+            Case {
+                world: world.clone(), serve0: None, serve1: serve(0, 0, true),
+                must_have: vec![], kill: None,
+            },
+            Case {
+                world: world.clone(), serve0: Some(serve(1, 1, false)), serve1: serve(1, 1, false),
+                must_have: abc.clone(), kill: None,
+            },
+        ];
+        for other in others {
+            cases.push(to_json(&other));
+            match prepare(&other) {
+                Ok(prep) => {
+                    for (follow, syscall, when) in &prep.kill_points {
+                        let mut case = other.clone();
+                        case.kill = Some(Kill { follow: *follow, syscall: syscall.clone(), when: *when });
+                        cases.push(to_json(&case));
+                    }
+                }
+                Err(err) => ctx.oracle_fail("setup-failed", &err, cases.last().unwrap(), json!(null)),
             }
         }
     }
